@@ -167,3 +167,88 @@ extern "C" void h_sub(void) {
   if (x->op >= 0) { vk_assert(w.ops[x->op].done == 1, "an accepted request never completed although the broker stayed reachable and answered everything"); vk_reach("request-completed"); }
 #endif
 }
+
+// Two requests in a row over one guided schedule with forks at the decisive points: an acknowledgement that overtakes the write
+// completion of its request and is orphaned by a connection loss, an acknowledgement sent twice, an unsolicited one - followed by
+// a second request, which reuses the packet identifier. No request may complete with a verdict the broker sent before it had
+// received that very request.
+struct S2 {
+  W w; int op[2] = {-1, -1};
+  struct sent_t { uint16_t pid; uint8_t code; int epoch; int after_pk; } sent[8]; int nsent = 0;
+  static constexpr uint8_t REQ = X::REQ, ACK = X::ACK;
+  static uint8_t code_of(int which) {
+#if VK_UNSUB
+    static const uint8_t c[] = {0x00, 0x11, 0x87};
+#else
+    static const uint8_t c[] = {0x00, 0x01, 0x87};
+#endif
+    return c[which];
+  }
+  int request(int i) {
+    std::string t = "f/"; t.push_back((char)('a' + i));
+#if VK_UNSUB
+    op[i] = w.unsubscribe({t});
+#else
+    op[i] = w.subscribe({{t, subscribe_options{}}});
+#endif
+    vk::drain(); return op[i];
+  }
+  // which request a packet on the wire belongs to (by its topic filter)
+  int req_of(const pkt_rec& r) { ref::packet k; if (r.type != REQ || r.epoch != w.epoch || !w.redecode(r, k) || k.ntopics != 1 || k.topics[0].n != 3) return -1; return k.topics[0].p[2] - 'a'; }
+  int stamp_from = 0;
+  void stamp() { for (int i = stamp_from; i < w.npk; i++) w.pk[i].aux = req_of(w.pk[i]); stamp_from = w.npk; }
+  void ack(uint16_t pid, uint8_t code) { vk_assert(nsent < 8, "harness: capacity"); sent[nsent++] = sent_t{pid, code, w.epoch, w.npk}; w.suback(ACK, pid, &code, 1); w.feed_all(); vk::drain(); }
+  uint16_t last_pid(int i) { for (int j = w.npk - 1; j >= 0; j--) if (w.pk[j].type == REQ && w.pk[j].aux == i) return w.pk[j].pid; return 0; }
+  void check() {
+    for (int i = 0; i < 2; i++) {
+      if (op[i] < 0) continue; const op_rec& o = w.ops[op[i]];
+      vk_assert(o.done <= 1, "completion handler invoked more than once");
+      if (!o.done || o.ec != 0) continue;
+      vk_assert(o.nrcs == 1, "handler received a different number of reason codes than topics requested");
+      bool found = false;
+      for (int a = 0; a < nsent && !found; a++) {
+        bool seen = false; for (int j = 0; j < sent[a].after_pk && j < w.npk; j++) if (w.pk[j].type == REQ && w.pk[j].epoch == sent[a].epoch && w.pk[j].pid == sent[a].pid && w.pk[j].aux == i) seen = true;
+        if (seen && o.rcs[0] == sent[a].code) found = true;
+      }
+      vk_assert(found, "request completed with a verdict the broker had not sent for this request (an acknowledgement for an earlier request or connection was used)");
+      vk_reach(i == 0 ? "first-checked" : "second-checked");
+    }
+  }
+  void write_done() { if (auto* s = vk::pending_write()) { w.finish_write(s, s->wdata.size(), {}); vk::drain(); stamp(); } }
+};
+extern "C" void h_sub_stale(void) {
+  S2* x = new S2(); W& w = x->w;
+  w.start(); w.connect_ok(); x->stamp();
+  x->request(0);
+  auto* s = vk::pending_write(); vk_assert(s != nullptr, "harness: request is being written");
+  uint8_t c1 = S2::code_of(vk_choose(3)), c2 = S2::code_of(vk_choose(3)), c3 = S2::code_of(vk_choose(3));
+  int variant = vk_choose(3);
+  if (variant == 0) {
+    // the broker has the request and answers before the client sees its write complete; then the connection dies
+    w.deliver_early(s); x->stamp(); x->ack(x->last_pid(0), c1);
+    int how = vk_choose(3);
+    if (how == 0) w.drop_connection(); else if (how == 1) w.drop_connection_any(3); else { w.lose_write(s); vk::drain(); x->check(); w.drop_connection(); }
+    vk::drain(); x->check();
+    bool ok = w.establish(); vk_assert(ok, "the client reconnects after a connection loss"); w.send_connack(true, 0, nullptr, 0); w.feed_all(); vk::drain(); x->stamp();
+    x->write_done(); x->check();
+    // the broker answers the retransmitted request (if there is one) with its verdict of now
+    if (!w.ops[x->op[0]].done) { vk_assert(x->last_pid(0) != 0, "an un-acknowledged request is retransmitted on the new connection"); x->ack(x->last_pid(0), c2); vk_reach("retransmission-answered"); }
+    else if (x->last_pid(0)) x->ack(x->last_pid(0), c2);
+    x->check(); vk_reach("ack-orphaned-by-loss");
+  } else if (variant == 1) {
+    // the acknowledgement arrives twice
+    x->write_done(); uint16_t pid = x->last_pid(0); x->ack(pid, c1); x->check(); x->ack(pid, c2); x->check(); vk_reach("ack-repeated");
+  } else {
+    // an acknowledgement nobody asked for, bearing the identifier the next request will get, arrives after the exchange is over
+    x->write_done(); uint16_t pid = x->last_pid(0); x->ack(pid, c1); x->check();
+    vk_assert(w.ops[x->op[0]].done == 1, "request completes once acknowledged");
+    x->ack(pid, c2); vk_reach("ack-unsolicited");
+  }
+  // the second request (it gets the identifier the first one released)
+  x->request(1); x->write_done(); x->check();
+  if (w.ops[x->op[1]].done && w.ops[x->op[1]].ec == 0) vk_reach("second-completed-early");
+  if (!w.ops[x->op[1]].done) { vk_assert(x->last_pid(1) != 0, "second request is written"); x->ack(x->last_pid(1), c3); }
+  x->check();
+  vk_assert(w.ops[x->op[1]].done == 1, "second request completes once acknowledged");
+  vk_event(20, variant);
+}
